@@ -794,15 +794,20 @@ func genWriteCase(tp *tape.Tape, op string) *writeCase {
 	switch op {
 	case "packet.pack.plain":
 		p := pk.Packet{ID: gen.PacketID(tp), Data: gen.Fill(tp, tp.Choose(300), 4, 0)}
+		if tp.Bool(1, 4) {
+			pWriteLong.Hit()
+			p.Data = gen.Fill(tp, 4000+tp.Choose(9000), 4, 2)
+		}
 		wc.enc = func(w io.Writer) (int64, error) { return -1, p.Pack(w, -1) }
 	case "packet.pack.zlib", "conn.writepacket":
 		th := []int{0, 1, 16, 64, 256}[tp.Choose(5)]
 		p := pk.Packet{ID: gen.PacketID(tp), Data: gen.Fill(tp, tp.Choose(300), 4, 1)}
+		if tp.Bool(1, 4) {
+			// longer than typical block/batch sizes and "large payload" shortcuts
+			pWriteLong.Hit()
+			p.Data = gen.Fill(tp, 4000+tp.Choose(9000), 4, 2)
+		}
 		if op == "conn.writepacket" {
-			if tp.Bool(1, 4) {
-				// longer than typical block/batch sizes of a wrapping writer
-				p.Data = gen.Fill(tp, 4000+tp.Choose(9000), 4, 2)
-			}
 			var key, iv []byte
 			if tp.Bool(1, 2) {
 				pWriteEncrypted.Hit()
@@ -952,3 +957,5 @@ var _ = reflect.DeepEqual
 var _ = zlib.NewWriter
 
 var pWriteEncrypted = simrt.NewProbe("write.conn.writepacket.through.an.installed.cipher")
+
+var pWriteLong = simrt.NewProbe("write.packet.payload.4000..13000.bytes")
